@@ -5,7 +5,8 @@
 // "an I/O error is reported and harmless") on the REAL crate: the system-call trace of one commit is recorded by the
 // LD_PRELOAD shim replays/ioshim.c, and every single write of that commit is made to fail in turn.
 // Bound: one history (commit A: 20 keys, commit B: 40 keys + 10 overwrites, page size 1024), every single write fault
-// of commit B, the data-phase sync fault.  Finding nothing proves nothing.
+// of commit B (state, reopen, later transactions checked), and every single write fault of the FIRST commit on a fresh file
+// (the one that grows the file), followed by a retry on the same handle.  Finding nothing proves nothing.
 #[cfg(test)]
 mod verif_cex_commit {
     use crate::{Data, OpenOptions, DB};
@@ -149,6 +150,46 @@ mod verif_cex_commit {
             if !matches!(later, Ok(Ok(()))) {
                 println!("CEX Tx::commit (C11 later transactions): {}: the next transaction on the same handle gives {:?}", what, later.map(|r| r.map_err(|e| format!("{:?}", e))));
                 panic!("c11-later");
+            }
+            drop(db);
+            let _ = std::fs::remove_file(&p);
+        }
+        // ---- the FIRST commit on a fresh file GROWS the file: every single write of it fails in turn, then the same
+        // transaction is retried on the same handle (C11: the handle keeps accepting transactions that commit correctly)
+        let p = tmp("grow-ref");
+        let db = OpenOptions::new().pagesize(PS).open(&p).unwrap();
+        let mark = log_lines().len();
+        put_keys(&db, 0, 300, 300, 0).unwrap();      // about 100 pages: more than the fresh file holds
+        let after_a = contents(&db);
+        let nwa = parse(&log_lines()[mark..]).iter().filter(|e| matches!(e, Ev::W { .. })).count();
+        drop(db);
+        let _ = std::fs::remove_file(&p);
+        for k in 1..=nwa {
+            let p = tmp("grow-fault");
+            let db = OpenOptions::new().pagesize(PS).open(&p).unwrap();
+            let w0 = parse(&log_lines()).iter().filter(|e| matches!(e, Ev::W { .. })).count();
+            set_ctl(&format!("W {}", w0 + k));
+            let r = std::panic::catch_unwind(std::panic::AssertUnwindSafe(|| put_keys(&db, 0, 300, 300, 0)));
+            set_ctl("-1");
+            let what = format!("history: fresh file (page size 1024), FIRST commit (300 keys of 300 bytes; it grows the file) with write #{} of {} failing with EIO, then the same transaction retried on the same handle", k, nwa);
+            match r {
+                Err(_) => { println!("CEX Tx::commit (C11 no panic): {}: the failing commit panicked", what); panic!("c11-grow-panic"); }
+                Ok(Ok(())) => { println!("CEX Tx::commit (C11 error reported): {}: commit returned Ok although one of its writes failed", what); panic!("c11-grow-ok"); }
+                Ok(Err(_)) => {}
+            }
+            let retry = std::panic::catch_unwind(std::panic::AssertUnwindSafe(|| {
+                put_keys(&db, 0, 300, 300, 0).map_err(|e| format!("retry fails: {:?}", e))?;
+                let c = contents(&db);
+                db.check().map_err(|e| format!("check() fails after the retry: {:?}", e))?;
+                put_keys(&db, 100, 110, 50, 7).map_err(|e| format!("a further transaction fails: {:?}", e))?;
+                let _ = contents(&db);
+                Ok::<_, String>(c)
+            }));
+            match retry {
+                Ok(Ok(c)) if c == after_a => {}
+                Ok(Ok(c)) => { println!("CEX Tx::commit (C11 later transactions): {}: after the retry the handle shows {} entries, expected {}", what, c.len(), after_a.len()); panic!("c11-grow-state"); }
+                Ok(Err(e)) => { println!("CEX Tx::commit (C11 later transactions): {}: {}", what, e); panic!("c11-grow-later"); }
+                Err(_) => { println!("CEX Tx::commit (C11 later transactions): {}: the handle panics after the retry", what); panic!("c11-grow-later-panic"); }
             }
             drop(db);
             let _ = std::fs::remove_file(&p);
